@@ -56,6 +56,22 @@ def build_product(tier):
             for via in ("api", "cli"):
                 cases.append({"part": "product", "truth": truth, "kinds": [truth], "pre": [], "method": False, "version": "v1",
                               "via": via, "extra_same_kind": pre})
+    # API: the truth file is not the first file listed for its kind
+    for truth in pj.KINDS:
+        other = [k for k in pj.KINDS if k != truth][0]
+        for pre in PRE:
+            cases.append({"part": "product", "truth": truth, "kinds": [k for k in pj.KINDS if k in (truth, other)], "pre": ["agree"],
+                          "method": False, "version": "v1", "via": "api", "extra_same_kind": pre, "truth_last": True})
+    # command line with paths spelled ~/file (left unexpanded by the shell in --class=~/x.py); a method name spelled with blanks
+    for truth in pj.KINDS:
+        for kinds in subsets_with(truth):
+            targets = [k for k in kinds if k != truth]
+            for st in ("missing", "nodef", "stale", "agree"):
+                cases.append({"part": "product", "truth": truth, "kinds": kinds, "pre": [st] * len(targets), "method": False,
+                              "version": "v1", "via": "cli", "tilde": True})
+                if truth != "function" and "function" in kinds:  # (the blanks are in the *target's* name)
+                    cases.append({"part": "product", "truth": truth, "kinds": kinds, "pre": [st] * len(targets), "method": True,
+                                  "version": "v1", "via": "api", "name_blanks": True})
     # a target of another kind lives in the truth's own file
     for truth in pj.KINDS:
         for k in pj.KINDS:
@@ -179,6 +195,7 @@ class C09(core.Check):
     def run_product(self, case):
         method_of = "Trainer" if case["method"] else None
         P = pj.Project(self._root(), method_of=method_of)
+        P.truth_last, P.tilde, P.name_blanks = bool(case.get("truth_last")), bool(case.get("tilde")), bool(case.get("name_blanks"))
         truth, kinds, version = case["truth"], case["kinds"], case["version"]
         targets = [k for k in kinds if k != truth]
         truth_text = pj.render(truth, version, P.function_name if truth == "function" else None, method_of if truth == "function" else None)
@@ -206,6 +223,9 @@ class C09(core.Check):
                 "version": version, "via": case["via"]}
         if case.get("in_truth_file"):
             base["in_truth_file"] = True
+        for flag in ("truth_last", "tilde", "name_blanks"):
+            if case.get(flag):
+                base[flag] = True
         sites = []
         if exc is not None:
             sites.append(site(False, dict(base, field="call", pre=",".join(case["pre"])), fail="raise", **core.exc_obs(exc)))
